@@ -330,3 +330,8 @@ func Native() bool { return true }
 func ParamFor(tag, key string, val interface{}) {
 	pendingParams = append(pendingParams, ParamKV{Key: key, Val: val, Tag: tag})
 }
+
+// RunRegion (engine only) runs the tail of function fn starting right after its call to a function
+// whose name ends with calleeSuffix, with result standing for that call's result. Natively it does
+// nothing and returns false: region harnesses are engine-only (model-level).
+func RunRegion(fn, calleeSuffix string, result interface{}) bool { return false }
